@@ -65,7 +65,7 @@ def hierarchy(draw):
         # the colliding class stays at group level: `class Base` inside Inn next to a configured X::Base is C20/C27 ground
         inner = ncls - 1
     return {"mods": out_mods, "classes": out_cls, "probes": probes, "coll": coll, "wrap": draw(st.sampled_from([None, None, None, "Outer", "Outer::Deep"])),
-            "inner": inner}
+            "inner": inner, "inside": draw(st.integers(0, 2)) == 0}
 
 
 def render_and_model(case):
@@ -153,6 +153,17 @@ def render_and_model(case):
     if n_inner:
         ind = outer_ind
         lines.append(ind + "end")
+    # call sites inside the namespace: a class of the group calls class methods of the others by their unqualified names
+    inside = []
+    if case.get("inside"):
+        cps = [p for p in case["probes"] if p["kind"] == "class"]
+        if cps:
+            lines.append(ind + "class Zcaller")
+            for k, p in enumerate(cps):
+                tgt = ("Inn::" if p["cls"] in inner_names else "") + p["cls"]
+                lines += [ind + "  def zc_%d" % k, ind + "    %s.%s" % (tgt, p["m"]), ind + "  end"]
+                inside.append((k, p))
+            lines.append(ind + "end")
     if case.get("wrap"):
         for k in range(len(case["wrap"].split("::")) - 1, -1, -1):
             lines.append("  " * k + "end")
@@ -227,6 +238,15 @@ def render_and_model(case):
                 continue
             lines.append("%s.new(%s)" % (qual(c), ", ".join(["1"] * p["k"])))
             exp.append([row, "OK" if p["k"] == n else "ERR", "-", "new-arity"])
+    if inside:
+        lines.append("o_zcaller = %sZcaller.new" % q)
+        for k, p in inside:
+            r = find_c(p["cls"], p["m"])
+            if r is None:
+                continue      # the diagnostic sits inside Zcaller's body, not on a probe row
+            row = len(lines) + 1
+            lines.append("dbtp o_zcaller.zc_%d" % k)
+            exp.append([row, "OK", r[1], "class-" + ("own" if r[0] == p["cls"] else "inherited") + "-from-inside"])
     return "\n".join(lines) + "\n", exp
 
 
